@@ -1078,6 +1078,17 @@ fn tween_one(which: usize, t: &TweenScene, ms: &[Motion], ctx: &mut Ctx) {
 		if grows || shrinks {
 			for i in IBS..out.len() - 1 {
 				let (x, y) = (out[i].0 as f64, out[i + 1].0 as f64);
+				// strictly so while the tween is in progress, the curve is strictly monotone there and both frames are audible:
+				// a level that stands still inside a chunk and jumps at its boundary is not "following the distance"
+				let in_tween = i + 1 < IBS + t.frames as usize;
+				let strict = in_tween && x > 1e-4 && y > 1e-4 && x < 0.999 * IN.0 as f64 && y < 0.999 * IN.0 as f64 && (x - y).abs() < 1e-9;
+				if strict {
+					ctx.fail(
+						format!("the level stands still between two frames although the distance changes (stepwise instead of frame by frame) :: tween of {}", TWEENS[which]),
+						format!("{} -> frames {} and {} both {}; left-channel frames {:?}", what, i, i + 1, x, out.iter().map(|f| f.0).collect::<Vec<_>>()),
+					);
+					break;
+				}
 				if (grows && y > x + 1e-6) || (shrinks && y < x - 1e-6) {
 					ctx.fail(
 						format!("the level does not follow the distance monotonically, frame by frame, while one end moves steadily {} :: tween of {}", if grows { "away" } else { "closer" }, TWEENS[which]),
